@@ -7,7 +7,7 @@ for k in (1, 2, 3, 4):
     d = os.path.join(src, "change%d.diff" % k)
     if not os.path.exists(d):
         continue
-    out = "/verif/seeded/%s-%d" % (prop, k)
+    out = "/verif/seeded/%s-%d" % (prop, k + int(os.environ.get("SEED_OFFSET", "0")))
     os.makedirs(out, exist_ok=True)
     shutil.copy(d, out + "/patch.diff")
     shutil.copy(os.path.join(src, "demo%d.py" % k), out + "/demo.py")
